@@ -116,6 +116,16 @@ theorem applyAt_aboutGround (X : Pose K) (sG F : V3 K) :
   apply SpF.ext' <;> simp only [applyAt, SpF.aboutGround]
   apply V3.ext' <;> simp [cross] <;> ring
 
+/-! `SpF.add` is a commutative monoid operation -/
+theorem SpF.add_zero' (a : SpF K) : SpF.add a SpF.zero = a := by
+  apply SpF.ext' <;> apply V3.ext' <;> simp [SpF.add]
+theorem SpF.zero_add' (a : SpF K) : SpF.add SpF.zero a = a := by
+  apply SpF.ext' <;> apply V3.ext' <;> simp [SpF.add]
+theorem SpF.add_assoc' (a b c : SpF K) : SpF.add (SpF.add a b) c = SpF.add a (SpF.add b c) := by
+  apply SpF.ext' <;> apply V3.ext' <;> simp [SpF.add] <;> ring
+theorem SpF.add_comm' (a b : SpF K) : SpF.add a b = SpF.add b a := by
+  apply SpF.ext' <;> apply V3.ext' <;> simp [SpF.add] <;> ring
+
 /-! small matrix algebra -/
 theorem dot_mulVec (R : M33 K) (a b : V3 K) : dot (R.mulVec a) b = dot a (R.tmulVec b) := by
   simp only [M33.mulVec, M33.tmulVec, dot, smul, V3.add_x, V3.add_y, V3.add_z]; ring
